@@ -494,7 +494,16 @@ impl<'tcx> Cx<'tcx> {
                             None => "{\"indirect\":true}".to_string(),
                         }
                     } else {
-                        format!("{{\"indirect\":true,\"dbg\":{}}}", esc(&format!("{}", c.const_)))
+                        // an aggregate constant by value (e.g. a lookup table `const T: [u8; 4]`): read it from its allocation
+                        let mut out = format!("{{\"indirect\":true,\"dbg\":{}}}", esc(&format!("{}", c.const_)));
+                        if let Ok(ConstValue::Indirect { alloc_id, offset }) = c.const_.eval(tcx, typing_env, c.span) {
+                            if let Some(GlobalAlloc::Memory(alloc)) = tcx.try_get_global_alloc(alloc_id) {
+                                if let Some(v) = self.mem_value_json(alloc.inner(), offset.bytes() as usize, ty, 0) {
+                                    out = format!("{{\"val\":{}}}", v);
+                                }
+                            }
+                        }
+                        out
                     }
                 }
                 Err(_) => format!("{{\"uneval\":{}}}", esc(&format!("{}", c.const_))),
